@@ -82,6 +82,12 @@ fn soc_w_winv<const P: u16, const D: usize>() {
 pub fn c13_soc3_w_winv() {
     soc_w_winv::<13, 3>();
 }
+/// same over GF(7) (3-bit field: cheaper queries; polynomial degrees involved are <= 4)
+#[kani::proof]
+#[kani::unwind(5)]
+pub fn c13_soc3_w_winv_p7() {
+    soc_w_winv::<7, 3>();
+}
 #[kani::proof]
 #[kani::unwind(7)]
 pub fn c13_soc5_w_winv() {
@@ -92,18 +98,23 @@ pub fn c13_soc5_w_winv() {
 #[kani::proof]
 #[kani::unwind(8)]
 pub fn c13_soc3_hs_dense() {
+    hs_dense::<13>();
+}
+#[kani::proof]
+#[kani::unwind(8)]
+pub fn c13_soc3_hs_dense_p7() {
+    hs_dense::<7>();
+}
+fn hs_dense<const P: u16>() {
     const D: usize = 3;
-    let mut c = soc_with_scaling::<13, D>();
-    // get_Hs uses SQRT_2 (an irrational constant): instantiate it by any root of 2 that exists in the field?
-    // 2 is not a square mod 13, so the (sqrt2 w0 - 1)(sqrt2 w0 + 1) form cannot be evaluated there:
-    // the dense block is therefore checked over GF(7)/GF(17) in c13_soc3_hs_block; here: Hs = W W.
-    let x: [F13; D] = anyv();
-    let mut wx = [F13::zero(); D];
-    let mut wwx = [F13::zero(); D];
-    let mut hx = [F13::zero(); D];
-    let mut work = [F13::zero(); D];
-    c.mul_W(MatrixShape::N, &mut wx, &x, F13::one(), F13::zero());
-    c.mul_W(MatrixShape::T, &mut wwx, &wx, F13::one(), F13::zero());
+    let mut c = soc_with_scaling::<P, D>();
+    let x: [Fp<P>; D] = anyv();
+    let mut wx = [Fp::<P>::zero(); D];
+    let mut wwx = [Fp::<P>::zero(); D];
+    let mut hx = [Fp::<P>::zero(); D];
+    let mut work = [Fp::<P>::zero(); D];
+    c.mul_W(MatrixShape::N, &mut wx, &x, Fp::one(), Fp::zero());
+    c.mul_W(MatrixShape::T, &mut wwx, &wx, Fp::one(), Fp::zero());
     c.mul_Hs(&mut hx, &x, &mut work);
     let mut i = 0;
     while i < D {
@@ -118,17 +129,24 @@ pub fn c13_soc3_hs_dense() {
 #[kani::proof]
 #[kani::unwind(8)]
 pub fn c13_soc3_hs_block() {
+    hs_block::<17>();
+}
+#[kani::proof]
+#[kani::unwind(8)]
+pub fn c13_soc3_hs_block_p7() {
+    hs_block::<7>();
+}
+fn hs_block<const P: u16>() {
     const D: usize = 3;
-    type G = Fp<17>;
-    let mut c = soc_with_scaling::<17, D>();
-    let mut blk = [G::zero(); 6];
+    let mut c = soc_with_scaling::<P, D>();
+    let mut blk = [Fp::<P>::zero(); 6];
     c.get_Hs(&mut blk);
-    let x: [G; D] = anyv();
-    let mut hx = [G::zero(); D];
-    let mut work = [G::zero(); D];
+    let x: [Fp<P>; D] = anyv();
+    let mut hx = [Fp::<P>::zero(); D];
+    let mut work = [Fp::<P>::zero(); D];
     c.mul_Hs(&mut hx, &x, &mut work);
     // unpack: column-major packed upper triangle
-    let mut h = [[G::zero(); D]; D];
+    let mut h = [[Fp::<P>::zero(); D]; D];
     let mut k = 0;
     let mut col = 0;
     while col < D {
@@ -143,7 +161,7 @@ pub fn c13_soc3_hs_block() {
     }
     let mut i = 0;
     while i < D {
-        let mut acc = G::zero();
+        let mut acc = Fp::<P>::zero();
         let mut j = 0;
         while j < D {
             acc = acc + h[i][j] * x[j];
@@ -155,13 +173,18 @@ pub fn c13_soc3_hs_block() {
     kani::cover!(hx[1].0 == 4 && c.w[1].0 != 0);
 }
 
-/// after the real update_scaling(s, z): w is normalised, (W'W) z = s, lambda = W z up to the sign of
-/// the chosen roots, and the sparse expansion eta^2 (D + u u' - v v') is the operator mul_Hs
+/// after the real update_scaling(s, z): w is normalised, eta^4 = res(s)/res(z), and the sparse expansion
+/// eta^2 (D + u u' - v v') is the operator mul_Hs.  These facts do not depend on WHICH square roots are
+/// taken.  The Nesterov-Todd identity itself, (W'W) z = s, holds only for a coherent choice of the nested
+/// roots (over the reals: the positive ones); a field has no such notion, and with the arbitrary roots
+/// of fp.rs the solver duly produces assignments where it fails (a false alarm of the first version of
+/// this harness, see DESIGN.md §6.6) - it is therefore NOT decided here.
 fn soc_update_scaling<const P: u16, const D: usize>(check_sparse: bool) {
     let mut c = SecondOrderCone::<Fp<P>>::new(D);
     let s: [Fp<P>; D] = anyv();
     let z: [Fp<P>; D] = anyv();
     let ok = c.update_scaling(&s, &z, Fp::one(), ScalingStrategy::PrimalDual);
+    kani::cover!(ok, "opt: update_scaling succeeded (all roots exist)");
     kani::assume(ok);
     kani::assume(c.η.0 != 0 && (Fp::<P>::one() + c.w[0]).0 != 0);
     // normalisation
@@ -172,34 +195,19 @@ fn soc_update_scaling<const P: u16, const D: usize>(check_sparse: bool) {
         i += 1;
     }
     assert!(c.w[0] * c.w[0] - w1sq == Fp::<P>::one(), "w_is_normalised");
-    // (W'W) z = s
-    let mut hz = [Fp::<P>::zero(); D];
+    // eta^4 = res(s) / res(z)
+    let res = |v: &[Fp<P>; D]| {
+        let mut r = v[0] * v[0];
+        let mut i = 1;
+        while i < D {
+            r = r - v[i] * v[i];
+            i += 1;
+        }
+        r
+    };
+    let e2 = c.η * c.η;
+    assert!(e2 * e2 * res(&z) == res(&s), "eta_to_the_fourth_is_the_ratio_of_the_residuals");
     let mut work = [Fp::<P>::zero(); D];
-    c.mul_Hs(&mut hz, &z, &mut work);
-    let mut i = 0;
-    while i < D {
-        assert!(hz[i] == s[i], "WtW_z_equals_s");
-        i += 1;
-    }
-    // lambda = W z = W^-T s  (up to the common sign of the nested square roots)
-    let mut wz = [Fp::<P>::zero(); D];
-    let mut wis = [Fp::<P>::zero(); D];
-    c.mul_W(MatrixShape::N, &mut wz, &z, Fp::one(), Fp::zero());
-    c.mul_Winv(MatrixShape::T, &mut wis, &s, Fp::one(), Fp::zero());
-    let mut plus = true;
-    let mut minus = true;
-    let mut i = 0;
-    while i < D {
-        assert!(wz[i] == wis[i], "Wz_equals_WinvT_s");
-        if !(wz[i] == c.λ[i]) {
-            plus = false;
-        }
-        if !(wz[i] == -c.λ[i]) {
-            minus = false;
-        }
-        i += 1;
-    }
-    assert!(plus || minus, "lambda_equals_Wz_up_to_root_sign");
     if check_sparse {
         let (su, sv, sdd) = {
             let sd = c.sparse_data.as_ref().unwrap();
@@ -224,7 +232,6 @@ fn soc_update_scaling<const P: u16, const D: usize>(check_sparse: bool) {
         }
         let mut hx = [Fp::<P>::zero(); D];
         c.mul_Hs(&mut hx, &x, &mut work);
-        let e2 = c.η * c.η;
         // diagonal block as written into the KKT matrix
         let mut dblk = [Fp::<P>::zero(); D];
         c.get_Hs(&mut dblk);
@@ -236,7 +243,8 @@ fn soc_update_scaling<const P: u16, const D: usize>(check_sparse: bool) {
         }
         assert!(dblk[0] == e2 * sdd && dblk[1] == e2, "sparse_diagonal_block_is_eta2_times_diag(d,1,..)");
     }
-    kani::cover!(s[1].0 != 0 && z[2].0 != 0 && c.w[1].0 != 0, "interior points with nonzero tails");
+    kani::cover!(c.w[1].0 != 0 || c.w[2].0 != 0, "scaling point with a nonzero tail");
+    kani::cover!(s[1].0 != 0 && z[2].0 != 0 && c.w[1].0 != 0, "opt: interior points with nonzero tails");
 }
 
 #[kani::proof]
